@@ -156,9 +156,11 @@ def classify(evolved, fresh, rebuilt, muts, stepwise=False):
                 out.append((F_STALE_COLUMN, '%s: table-level index %s is not dropped by ChangeMeta after one of its '
                             'columns was renamed in the same run' % (t, ix[0])))
             elif not multi and kind == 'missing' and not rb and ((ix[0][0] + '>=0') in f['checks'] or
-                                                      any(fk[0] == ix[0][0] for fk in f['fks'])) and any(
+                                                                 any(fk[0] == ix[0][0] for fk in f['fks'])) and any(
                     m['t'] == 'ChangeField' and any(a == 'db_index' and v == 'true' for a, v in m['attrs']) and
-                    not any(a == 'db_column' for a, _ in m['attrs']) for m in muts):
+                    not any(a == 'db_column' for a, _ in m['attrs']) and
+                    (ix[0][0] in (m['field'], m['field'] + '_id') or ix[0][0].startswith(m['field'] + '_'))
+                    for m in muts):
                 out.append((F_CHECK_AS_INDEX, '%s: no index is created for %s: the scanned DatabaseState lists the column\'s '
                             'CHECK / FOREIGN KEY constraint as an index, so create_index() thinks one exists' % (t, ix[0])))
             elif not multi and (rb or ((idx_touch or renames) and (not stepwise or rename_and_index_in_one(muts)))):
